@@ -133,7 +133,10 @@ def _fft_shape(dx, du, z, wavelength, oversample):
 
 
 def _fft2(x):
-    return np.fft.ifftshift(np.fft.fft2(np.fft.fftshift(x), norm='ortho'))
+    # origin at index floor(n/2) in both planes (ifftshift moves it to index 0 for
+    # the FFT, fftshift moves the DC term back); the two shifts only coincide for
+    # even n
+    return np.fft.fftshift(np.fft.fft2(np.fft.ifftshift(x), norm='ortho'))
 
 
 def _has_tilt(wavefront):
